@@ -994,8 +994,7 @@ class Interp:
             if gi is None:
                 raise Unsupported('subscript on object without __getitem__')
             item = self.slice_value(sl, st)
-            v, _ = self.inline(gi, [V(single), item], {}, st, e)
-            return v
+            return self.call_func(gi, single, [item], {}, e, st)
         if isinstance(single, tuple) and single and single[0] == 'map':
             return self.map_read(single, self._eval(sl, st), st)
         if isinstance(single, tuple) and single and single[0] == 'objlist':
@@ -1455,7 +1454,7 @@ class Interp:
                 if si is None:
                     raise AnalysisError('item store on object without __setitem__')
                 item = self.slice_value(target.slice, st)
-                self.inline(si, [V(p), item, v], {}, st, node)
+                self.call_func(si, p, [item, v], {}, node, st)
                 return
             if isinstance(p, tuple) and p and p[0] == 'map':
                 self.map_write(p, self.eval(target.slice, st), v, st, node)
